@@ -142,6 +142,7 @@ class Inliner(object):
       self._cur_locals = outer if outer is not None else set()
     if inlined:
       node._inlined_from = sorted(set(inlined) | set(getattr(node, '_inlined_from', ())))
+      _check_bound(node, fi)
     return bool(inlined) or bool(getattr(node, '_nested_changed', False))
 
   def _fi_of(self, node):
@@ -384,6 +385,7 @@ class Inliner(object):
         rename[p] = a.id
       elif p not in stored and isinstance(a, ast.Constant):
         subst[p] = a
+        rename.pop(p, None)
       else:
         kept.append((p, a))
     binds = kept
@@ -425,6 +427,21 @@ class Inliner(object):
 
 
 # ---------------------------------------------------------------------- helpers
+
+def _check_bound(defnode, fi):
+  """every synthetic name that is read is also bound somewhere in the function: the splice is well formed."""
+  import re
+  from .model import AnalysisError
+  bound = _locals_of(defnode)
+  for x in ast.walk(defnode):
+    if isinstance(x, (ast.FunctionDef, ast.AsyncFunctionDef)) and x is not defnode:
+      bound |= _locals_of(x)
+    elif isinstance(x, ast.comprehension):
+      bound |= {y.id for y in ast.walk(x.target) if isinstance(y, ast.Name)}
+  for x in ast.walk(defnode):
+    if isinstance(x, ast.Name) and isinstance(x.ctx, ast.Load) and re.search(r'__(i|ret)\d+$', x.id) and x.id not in bound:
+      raise AnalysisError('inliner produced an unbound name %s in %s' % (x.id, fi.key))
+
 
 def _locals_of(defnode):
   a = defnode.args
